@@ -148,7 +148,7 @@ func runC13(c *Ctx) {
 			// compacts per call shows only beyond a size no small example reaches)
 			ct.Revs["*"] = 500
 			for k := 0; k < 150+c.R.Intn(150); k++ {
-				ct.Revs[fmt.Sprintf("UBIG%04d", k)] = int64(c.R.Intn(1000))
+				ct.Revs[fmt.Sprintf("UBIG%04d", k)] = int64(c.R.Intn(500)) // all covered by the wildcard
 			}
 			c.Count("large-revocation-list")
 		}
